@@ -39,11 +39,68 @@ const (
 	FNullEntities             // probe: every entity null
 	FNaNData                  // probe: numbers inside data printed as NaN
 	FPartial                  // "errors with partial data": some entities with a field nulled + errors entries (RunConfig.Partials)
-	faultKindEnd
+	// "the selected data path holds an explicit null / a value of the wrong kind": FShapeBase + 4*shape + variant
+	// (variant bit 0: with an errors entry, bit 1: status 500); then FItemsBase + 4*itemkind + variant
+	FShapeBase
 )
 
-var faultNames = [...]string{"none", "transport", "status_empty", "status_text", "status_errors", "empty", "nonjson", "truncated",
-	"nan_body", "errors_nodata", "errors_nulldata", "nulldata", "count_less", "count_more", "status_with_data", "null_entities", "nan_data", "partial"}
+// Shapes of the whole `data` member, in the order of coq/C07/Model.v [shape]; item kinds as [itemkind].
+var ShapeNames = []string{"entnull", "entobj", "entstr", "dataempty", "datastr", "datanum", "dataarr"}
+var shapeData = []string{`{"_entities":null}`, `{"_entities":{}}`, `{"_entities":"x"}`, `{}`, `"x"`, `1`, `[]`}
+var ItemNames = []string{"num", "str", "list"}
+var itemData = []string{`1`, `"x"`, `[]`}
+var variantNames = []string{"", "_e", "_5", "_e5"}
+
+const (
+	FItemsBase   = FShapeBase + 4*7
+	faultKindEnd = FItemsBase + 4*3
+)
+
+// FShape / FItems build the kind; IsShape / IsItems take it apart (index, with errors, status 500).
+func FShape(shape, variant int) FaultKind { return FShapeBase + FaultKind(4*shape+variant) }
+func FItems(item, variant int) FaultKind  { return FItemsBase + FaultKind(4*item+variant) }
+func (k FaultKind) IsShape() (int, bool, bool, bool) {
+	if k < FShapeBase || k >= FItemsBase {
+		return 0, false, false, false
+	}
+	i := int(k - FShapeBase)
+	return i / 4, i&1 != 0, i&2 != 0, true
+}
+func (k FaultKind) IsItems() (int, bool, bool, bool) {
+	if k < FItemsBase || k >= faultKindEnd {
+		return 0, false, false, false
+	}
+	i := int(k - FItemsBase)
+	return i / 4, i&1 != 0, i&2 != 0, true
+}
+
+// Aborts: kinds after which MergeValues fails with ErrMergeDifferentTypes and the whole resolve returns an error
+// (finding wrong-kind-data-aborts-response): `_entities` items of a wrong kind, `data` of a wrong kind on a root fetch.
+func (k FaultKind) Aborts(fk FKind) bool {
+	if _, _, _, ok := k.IsItems(); ok {
+		return true
+	}
+	if sh, _, _, ok := k.IsShape(); ok {
+		return fk == FSingle && sh >= 4
+	}
+	return false
+}
+
+var faultNames = func() []string {
+	ns := []string{"none", "transport", "status_empty", "status_text", "status_errors", "empty", "nonjson", "truncated",
+		"nan_body", "errors_nodata", "errors_nulldata", "nulldata", "count_less", "count_more", "status_with_data", "null_entities", "nan_data", "partial"}
+	for _, sh := range ShapeNames {
+		for _, v := range variantNames {
+			ns = append(ns, "sh_"+sh+v)
+		}
+	}
+	for _, it := range ItemNames {
+		for _, v := range variantNames {
+			ns = append(ns, "it_"+it+v)
+		}
+	}
+	return ns
+}()
 
 func (k FaultKind) String() string { return faultNames[k] }
 func FaultKindByName(s string) FaultKind {
@@ -61,11 +118,18 @@ func (k FaultKind) Applicable(fk FKind) bool {
 	case FCountLess, FCountMore, FNullEntities, FPartial:
 		return fk != FSingle
 	}
+	if _, _, _, ok := k.IsItems(); ok {
+		return fk != FSingle
+	}
+	if sh, _, _, ok := k.IsShape(); ok && sh < 3 {
+		return fk != FSingle // `_entities` is no field of a root answer (data-path analogues for root fetches: data {} / "x" / 1 / [])
+	}
 	return k != FNone
 }
 
 // Hard kinds: the failures listed by the C07 property text (NaN inside data is a non-JSON body).  The others are probes.
 func (k FaultKind) Hard() bool { return (k >= FTransport && k <= FCountMore) || k == FNaNData }
+
 
 // Request is one recorded subgraph request.
 type Request struct {
@@ -314,6 +378,28 @@ func (d *ds) Load(ctx context.Context, headers http.Header, input []byte) ([]byt
 		body = `{"data":null}`
 	case FStatusWithData:
 		rq.Status = 500
+	}
+	boomMember := func(we bool) string {
+		if we {
+			return `,"errors":[` + errBoom + `]`
+		}
+		return ""
+	}
+	if sh, we, s5, ok := fault.IsShape(); ok {
+		body = `{"data":` + shapeData[sh] + boomMember(we) + `}`
+		if s5 {
+			rq.Status = 500
+		}
+	}
+	if it, we, s5, ok := fault.IsItems(); ok {
+		items := make([]string, len(entities))
+		for i := range items {
+			items[i] = itemData[it]
+		}
+		body = `{"data":{"_entities":[` + strings.Join(items, ",") + `]}` + boomMember(we) + `}`
+		if s5 {
+			rq.Status = 500
+		}
 	}
 	if st.cfg.CacheControl != nil {
 		rq.CC = st.cfg.CacheControl(f.ID, rq.Seq)
